@@ -364,3 +364,111 @@ pub proof fn lemma_all_matched_push_iff(t: Seq<DiffLine>, d: DiffLine)
 pub open spec fn c03_hyp(exps: Seq<Expectation>, out: Seq<Seq<u8>>) -> bool {
     deterministic(exps, out) && accepts(exps, out)
 }
+
+// ------------------------------------------------------------------ the split of a byte string is unique
+// ---- uniqueness
+/// a non-empty split's concatenation: if there is a previous line, the byte just before the last line is LF
+proof fn lemma_before_last(l: Seq<Seq<u8>>, b: Seq<u8>)
+    requires is_split(l, b), l.len() >= 2,
+    ensures b.len() > l.last().len(), b[b.len() - l.last().len() - 1] == 10u8,
+{
+    let init = l.drop_last();
+    let p = init.last();
+    assert(p == l[l.len() - 2]);
+    assert(full_line(p));
+    assert(concat(init) == concat(init.drop_last()) + p);
+    let c = concat(init);
+    assert(c.len() >= 1 && c.last() == 10u8) by {
+        assert(c[c.len() - 1] == p[p.len() - 1]);
+    }
+    assert(b == c + l.last());
+    assert(b[c.len() - 1] == c[c.len() - 1]);
+}
+proof fn lemma_concat_len(l: Seq<Seq<u8>>)
+    ensures concat(l).len() >= (if l.len() > 0 { l.last().len() } else { 0 }),
+{
+}
+proof fn lemma_init_is_split(l: Seq<Seq<u8>>, b: Seq<u8>)
+    requires is_split(l, b), l.len() >= 1,
+    ensures is_split(l.drop_last(), concat(l.drop_last())),
+{
+    let init = l.drop_last();
+    assert forall|i: int| 0 <= i < init.len() - 1 implies full_line(#[trigger] init[i]) by { assert(init[i] == l[i]); }
+    if init.len() > 0 {
+        assert(init.last() == l[l.len() - 2]);
+        assert(full_line(init.last()));
+    }
+}
+pub proof fn lemma_split_unique(l1: Seq<Seq<u8>>, l2: Seq<Seq<u8>>, b: Seq<u8>)
+    requires is_split(l1, b), is_split(l2, b),
+    ensures l1 =~= l2,
+    decreases l1.len()
+{
+    if l1.len() == 0 {
+        if l2.len() > 0 { lemma_concat_len(l2); assert(false); }
+    } else if l2.len() == 0 {
+        lemma_concat_len(l1); assert(false);
+    } else {
+        let a1 = l1.last(); let a2 = l2.last();
+        let c1 = concat(l1.drop_last()); let c2 = concat(l2.drop_last());
+        assert(b == c1 + a1); assert(b == c2 + a2);
+        // the last lines have the same length
+        if a1.len() < a2.len() {
+            // position of the byte before a1 lies strictly inside a2 (not its last byte): must not be LF
+            if l1.len() >= 2 {
+                lemma_before_last(l1, b);
+                let p = b.len() - a1.len() - 1;
+                assert(p >= c2.len()) by { assert(c2.len() == b.len() - a2.len()); }
+                let k = p - c2.len();
+                assert(0 <= k < a2.len() - 1);
+                assert(b[p] == a2[k]);
+                assert(false);
+            } else {
+                assert(l1.drop_last().len() == 0);
+                assert(c1.len() == 0);
+                assert(b.len() == a1.len());
+                assert(b.len() >= a2.len());
+                assert(false);
+            }
+        } else if a2.len() < a1.len() {
+            if l2.len() >= 2 {
+                lemma_before_last(l2, b);
+                let p = b.len() - a2.len() - 1;
+                assert(c1.len() == b.len() - a1.len());
+                let k = p - c1.len();
+                assert(0 <= k < a1.len() - 1);
+                assert(b[p] == a1[k]);
+                assert(false);
+            } else {
+                assert(c2.len() == 0);
+                assert(b.len() == a2.len());
+                assert(false);
+            }
+        }
+        assert(a1.len() == a2.len());
+        assert(c1.len() == c2.len());
+        assert(a1 =~= a2) by {
+            assert forall|k: int| 0 <= k < a1.len() implies a1[k] == a2[k] by {
+                assert(b[c1.len() + k] == a1[k]); assert(b[c2.len() + k] == a2[k]);
+            }
+        }
+        assert(c1 =~= c2) by {
+            assert forall|k: int| 0 <= k < c1.len() implies c1[k] == c2[k] by {
+                assert(b[k] == c1[k]); assert(b[k] == c2[k]);
+            }
+        }
+        lemma_init_is_split(l1, b); lemma_init_is_split(l2, b);
+        lemma_split_unique(l1.drop_last(), l2.drop_last(), c1);
+        assert(l1 =~= l1.drop_last().push(a1));
+        assert(l2 =~= l2.drop_last().push(a2));
+    }
+}
+
+/// THE lines of a byte stream
+pub open spec fn lines_of(b: Seq<u8>) -> Seq<Seq<u8>> { choose|l: Seq<Seq<u8>>| is_split(l, b) }
+pub proof fn lemma_lines_of(l: Seq<Seq<u8>>, b: Seq<u8>)
+    requires is_split(l, b),
+    ensures lines_of(b) == l,
+{
+    lemma_split_unique(lines_of(b), l, b);
+}
